@@ -432,7 +432,18 @@ def token_tables(ctx):
     inner = rx.strip('()')
     text_alts = set(inner.split('|')) if '|' in inner else set()
     alts = text_alts or alts
-    ctx.floor('compare_op alternatives', len(alts), 9)
+    ctx.floor('compare_op alternatives', len(alts), 3)
+    # the language has six comparisons and three alternative spellings
+    LANGUAGE = ('=', '<>', '><', '<', '>', '<=', '=<', '>=', '=>')
+    for sp in LANGUAGE:
+        ctx.instance(rule, f'compare_op-spelling:{sp}')
+        if sp not in alts:
+            ctx.finding(rule, f'qbee/grammar.py:compare_op-spelling[{sp}]',
+                        f'the comparison spelling {sp!r} is no longer an '
+                        f'alternative of compare_op: a program that writes '
+                        f'`a {sp} b` is rejected (or parsed as something '
+                        f'else) although the operator table still defines '
+                        f'it', 'qbee/grammar.py', co.lineno)
     for a in sorted(alts):
         ctx.instance(rule, f'compare_op:{a}')
         if a not in keys:
